@@ -502,11 +502,26 @@ func containsInt(xs []int, x int) bool {
 func init() {
 	Register(&PropDef{
 		ID:        "C18",
-		Variants:  []string{"pool"},
-		SimConfig: c18SimConfig,
-		Scenario:  c18Scenario,
-		Post:      c18Post,
-		Rule: "2-4 client tasks issue 1-3 tape-generated AddTx/AddTxs/GetTxs/DelTxs/IsEmpty operations each on one real TxPool " +
+		Variants:  []string{"pool", "forks"},
+		SimConfig: func(c *Ctx) simrt.Config {
+			if c.Var == "forks" {
+				return simrt.Config{Policy: simrt.PolicyCoarse}
+			}
+			return c18SimConfig(c)
+		},
+		Scenario: func(c *Ctx) {
+			if c.Var == "forks" {
+				c18bScenario(c)
+				return
+			}
+			c18Scenario(c)
+		},
+		Post: func(c *Ctx) {
+			if c.Var != "forks" {
+				c18Post(c)
+			}
+		},
+		Rule: "variant forks (1 of 4 runs, clause b): a tape-generated tree of up to 12 blocks whose forks carry overlapping subsets of 4-8 pending transfers is delivered in tape order to an observer (3-5 deputies) whose pool holds all of them; at every head move to a non-child block the pool is compared with the abandoned and the new branch; non-trivial = >=1 fork switch. variant pool (clause a): 2-4 client tasks issue 1-3 tape-generated AddTx/AddTxs/GetTxs/DelTxs/IsEmpty operations each on one real TxPool " +
 			"(initial capacity 1-4, 4-6 transactions and 1-2 boxes sharing sub-transactions, expirations around the selection times) " +
 			"under random-gap or PCT preemption at statement granularity; a run is non-trivial when the scheduler switched tasks more " +
 			"often than there are clients (operations really interleaved) and >=3 operations ran; distinct = distinct event-log digests",
